@@ -121,7 +121,9 @@ type Spec struct {
 	// analysed function and of every helper the analysis descends into (the
 	// last call for a node carries the final facts).
 	Observe func(fl *Flow, n ast.Node, before Facts)
-	depth   int
+	// Stop, when set, names helpers the analysis must treat as opaque.
+	Stop  func(fi *FuncInfo) bool
+	depth int
 	id      int
 }
 
@@ -558,6 +560,7 @@ func (e *Events) edgeFn(pkg *packages.Package) func(b *cfg.Block, i int, cond as
 type helperSummary struct {
 	all, onNil, onErr Facts // facts at all normal exits / only at `return nil` exits / only at error exits
 	errResult         bool
+	complete          bool // computed from at least one normal exit (not a recursion guard)
 }
 
 var helperMemo = map[string]*helperSummary{}
@@ -643,6 +646,7 @@ func (f *Flow) summarise(spec Spec, fi *FuncInfo, entry Facts) *helperSummary {
 		return x
 	}
 	hs.all, hs.onNil, hs.onErr = orEmpty(all), orEmpty(onNil), orEmpty(onErr)
+	hs.complete = nAll > 0
 	helperMemo[key] = hs
 	return hs
 }
@@ -677,7 +681,7 @@ func (f *Flow) applyHelpers(spec Spec, n ast.Node, cur Facts) Facts {
 	}
 	for _, c := range callsInEvalOrder(n) {
 		fi := f.inlinable(c)
-		if fi == nil {
+		if fi == nil || (spec.Stop != nil && spec.Stop(fi)) {
 			continue
 		}
 		entry := Facts{}
@@ -687,6 +691,14 @@ func (f *Flow) applyHelpers(spec Spec, n ast.Node, cur Facts) Facts {
 			}
 		}
 		hs := f.summarise(spec, fi, entry)
+		// a global fact that went in and did not come out was killed by the helper
+		if hs.complete {
+			for k := range entry {
+				if !hs.all[k] && (spec.Must || (!hs.onNil[k] && !hs.onErr[k])) {
+					delete(cur, k)
+				}
+			}
+		}
 		if spec.Must {
 			// facts of the caller survive the call; the callee adds what it guarantees
 			for k := range hs.all {
